@@ -87,6 +87,18 @@ func ruleConfigKeying(w *World, r *Run, rule string) {
 func ruleIDDerivation(w *World, r *Run, rule string) {
 	// every call of formats/log.ID in production code derives the ID from an origin
 	n := 0
+	// derivations inside the endpoint and inside AsLogMap (incl. their helpers) have their argument's provenance checked on
+	// the path summaries (C10.e: ID of the checkpoint's first line; C02.c: ID of the entry's origin)
+	var pathChecked map[*ssa.Function]bool
+	{
+		var roots []*ssa.Function
+		for _, nm := range []string{fnServeHTTP, fnAsLogMap} {
+			if f := w.fn(nm); f != nil {
+				roots = append(roots, f)
+			}
+		}
+		pathChecked = reachableModule(w, roots)
+	}
 	for _, fn := range w.prodFns() {
 		for _, b := range fn.Blocks {
 			for _, in := range b.Instrs {
@@ -102,11 +114,11 @@ func ruleIDDerivation(w *World, r *Run, rule string) {
 				host := funcNameOrSSA(outermost(fn))
 				key := host + " | log ID derived from the origin"
 				arg := c.Common().Args[0]
-				switch host {
-				case fnNewLog:
+				switch {
+				case host == fnNewLog:
 					p := w.fn(fnNewLog).Params[0]
 					r.Check(arg == ssa.Value(p), rule, key, w.pos(in.Pos()), "config.NewLog derives the ID from something other than its origin parameter")
-				case fnAsLogMap, fnServeHTTP:
+				case pathChecked[outermost(fn)] && (pkgPathOf(fn) == pBastion || pkgPathOf(fn) == pOmni):
 					r.Pass(rule, key, w.pos(in.Pos()), "") // argument provenance checked by C02.c / C10.e on the path summaries
 				default:
 					// a new derivation site: accept only a field named Origin
@@ -1056,11 +1068,19 @@ func ruleNeverGivesUp(w *World, r *Run, rule string) {
 	if sums, _, ok := exploreOpaque(w, r, rule, fnRun, 4, 1, fnFeedOnce); ok {
 		fn := w.fn(fnRun)
 		nf := 0
+		p0, p2 := paramN(fn, 0), paramN(fn, 2)
 		for _, s := range sums {
+			wts := calls(s, "context.WithTimeout", "context.WithDeadline")
 			for _, fo := range calls(s, fnFeedOnce) {
 				nf++
-				wt := calls(s, "context.WithTimeout", "context.WithDeadline")
-				good := len(wt) >= 1 && fo.Args[0] == res(wt[len(wt)-1], 0) && wt[len(wt)-1].Args[0] == paramN(fn, 0) && fo.Args[1] == paramN(fn, 2)
+				good := false
+				for _, wt := range wts {
+					// the bounded context this very cycle runs under, derived from the caller's context
+					if wt.Seq < fo.Seq && wt.Args[0] == p0 && fo.Args[0] == res(wt, 0) {
+						good = true
+					}
+				}
+				good = good && fo.Args[1] == p2
 				r.Check(good, rule, fnRun+" | each cycle runs FeedOnce(options given) under a deadline derived from the caller's context", w.pos(fo.Pos), "FeedOnce is not run under context.WithTimeout(ctx, …) with the caller's options")
 			}
 		}
